@@ -1453,3 +1453,337 @@ theorem solo_terminates {chk : Nat → Nat → Bool} {v0 : Nat} (h0 : chk 0 v0 =
         exact ⟨k + 1, by omega, s', by simp [solo, hst, hsolo], hret, by rw [hmem', hmem]⟩
 
 end Woodpile.Abt.RA
+
+/-! ### Frames, the writers' knowledge, and the bookkeeping laws on the view machine (gap 7) -/
+namespace Woodpile.Abt.RA
+
+/-- Everything a step leaves alone or only grows: other threads are untouched, every view
+only grows (and a `sync t u` makes `t`'s view cover `u`'s), `start` moves only for a `.start`
+(to the caller's view of `sequence`), the argument pair `(ub, uv)` of the call in progress is
+fixed by every `run`/`sync` step. -/
+structure FrameSpec (s s' : State) (l : Label) : Prop where
+  others : ∀ t', t' ≠ actor l → s'.thr t' = s.thr t' ∧ s'.start t' = s.start t'
+  views : ∀ t' l', (s.thr t').view l' ≤ (s'.thr t').view l'
+  sync : ∀ t u, l = .sync t u → (s'.thr t).loc = (s.thr t).loc ∧ s'.start t = s.start t ∧
+      ∀ l', (s.thr u).view l' ≤ (s'.thr t).view l'
+  start : ∀ t op, l = .start t op → (s'.thr t).loc = (s.thr t).loc.start op ∧ (s'.thr t).view = (s.thr t).view ∧
+      s'.start t = (s.thr t).view .seq ∧ (s.thr t).loc.pc.terminal = true
+  run : ∀ t ts, l = .run t ts → (s'.thr t).loc.ub = (s.thr t).loc.ub ∧ (s'.thr t).loc.uv = (s.thr t).loc.uv ∧
+      s'.start t = s.start t
+
+theorem views_of_actor {s s' : State} {l : Label} (h1 : ∀ t', t' ≠ actor l → s'.thr t' = s.thr t')
+    (h2 : ∀ l', (s.thr (actor l)).view l' ≤ (s'.thr (actor l)).view l') :
+    ∀ t' l', (s.thr t').view l' ≤ (s'.thr t').view l' := by
+  intro t' l'
+  by_cases ht : t' = actor l
+  · subst ht; exact h2 l'
+  · rw [h1 t' ht]; exact Nat.le_refl _
+
+theorem frame_run_aux (s : State) (t ts : Nat) (th' : Thread) (lg' : Nat → List (Nat × Nat)) (mem' : Loc → List Msg)
+    (held' : Option Nat) (p' : Bool) (mv' : View) (hist' : List (Nat × Nat))
+    (hv : ∀ l', (s.thr t).view l' ≤ th'.view l') (hub : th'.loc.ub = (s.thr t).loc.ub)
+    (huv : th'.loc.uv = (s.thr t).loc.uv) :
+    FrameSpec s { s with thr := upd s.thr t th', log := lg', mem := mem', held := held', poisoned := p',
+                         mview := mv', hist := hist' } (.run t ts) := by
+  refine ⟨?_, ?_, (by intro _ _ h; cases h), (by intro _ _ h; cases h), ?_⟩
+  · intro t' ht; simp only [actor] at ht; simp [upd_ne _ _ _ ht]
+  · apply views_of_actor (l := .run t ts)
+    · intro t' ht; simp only [actor] at ht; simp [upd_ne _ _ _ ht]
+    · intro l'; simp only [actor, upd_same]; exact hv l'
+  · intro t2 ts2 h; cases h
+    simp only [upd_same]; exact ⟨hub, huv, trivial⟩
+
+theorem feedLoad_args (chk : Nat → Nat → Bool) (th : Local) (val : Nat) :
+    (th.feedLoad chk val).ub = th.ub ∧ (th.feedLoad chk val).uv = th.uv := by
+  obtain ⟨pc, ub, uv, sq, bits, base⟩ := th
+  cases pc <;> simp only [Local.feedLoad] <;> (repeat' split) <;> simp
+
+theorem feedLock_args (th : Local) (r : LockRes) : (th.feedLock r).ub = th.ub ∧ (th.feedLock r).uv = th.uv := by
+  obtain ⟨pc, ub, uv, sq, bits, base⟩ := th
+  cases pc <;> cases r <;> exact ⟨rfl, rfl⟩
+
+theorem feedUnit_args (th : Local) : th.feedUnit.ub = th.ub ∧ th.feedUnit.uv = th.uv := by
+  obtain ⟨pc, ub, uv, sq, bits, base⟩ := th
+  cases pc <;> exact ⟨rfl, rfl⟩
+
+theorem step_frame {chk : Nat → Nat → Bool} {s s' : State} (hI : Inv chk s) (l : Label) (h : step chk s l = some s') :
+    FrameSpec s s' l := by
+  cases l with
+  | sync t u =>
+    simp [step] at h; subst h
+    refine ⟨?_, ?_, ?_, (by intro _ _ h; cases h), (by intro _ _ h; cases h)⟩
+    · intro t' ht; simp only [actor] at ht; simp [upd_ne _ _ _ ht]
+    · apply views_of_actor (l := .sync t u)
+      · intro t' ht; simp only [actor] at ht; simp [upd_ne _ _ _ ht]
+      · intro l'; simp only [actor, upd_same]; exact join_le_left _ _ _
+    · intro t2 u2 h; cases h
+      exact ⟨by simp, by simp, fun l' => by simp only [upd_same]; exact join_le_right _ _ _⟩
+  | start t op =>
+    simp only [step] at h
+    split at h
+    · rename_i hterm
+      simp at h; subst h
+      refine ⟨?_, ?_, (by intro _ _ h; cases h), ?_, (by intro _ _ h; cases h)⟩
+      · intro t' ht; simp only [actor] at ht; simp [upd_ne _ _ _ ht]
+      · apply views_of_actor (l := .start t op)
+        · intro t' ht; simp only [actor] at ht; simp [upd_ne _ _ _ ht]
+        · intro l'; simp [actor]
+      · intro t2 op2 h; cases h
+        simp [hterm]
+    · simp at h
+  | run t ts =>
+    simp only [step] at h
+    cases hnx : (s.thr t).loc.next <;> simp only [hnx] at h
+    case load l o =>
+      cases hm : (s.mem l)[ts]? <;> simp only [hm] at h
+      · simp at h
+      · split at h <;> simp at h
+        rename_i m hv
+        subst h
+        exact frame_run_aux s t ts _ _ _ _ _ _ _ (fun l' => loadView_ge hv l') (feedLoad_args _ _ _).1 (feedLoad_args _ _ _).2
+    case store l o val =>
+      simp at h; subst h
+      refine frame_run_aux s t ts _ _ _ _ _ _ _ ?_ (feedUnit_args _).1 (feedUnit_args _).2
+      intro l'
+      by_cases hl : l' = l
+      · subst hl; simp only [upd_same]
+        have := (hI.t t).wfv l'; omega
+      · simp [upd_ne _ _ _ hl]
+    case lock =>
+      split at h <;> simp at h
+      subst h
+      exact frame_run_aux s t ts _ _ _ _ _ _ _ (fun l' => join_le_left _ _ _) (feedLock_args _ _).1 (feedLock_args _ _).2
+    case tryLock =>
+      split at h <;> simp at h <;> subst h
+      · exact frame_run_aux s t ts _ _ _ _ _ _ _ (fun l' => join_le_left _ _ _) (feedLock_args _ _).1 (feedLock_args _ _).2
+      · exact frame_run_aux s t ts _ _ _ _ _ _ _ (fun l' => Nat.le_refl _) (feedLock_args _ _).1 (feedLock_args _ _).2
+    case unlock p =>
+      simp at h; subst h
+      exact frame_run_aux s t ts _ _ _ _ _ _ _ (fun l' => Nat.le_refl _) (feedUnit_args _).1 (feedUnit_args _).2
+    case clearPoison =>
+      simp at h; subst h
+      exact frame_run_aux s t ts _ _ _ _ _ _ _ (fun l' => Nat.le_refl _) (feedUnit_args _).1 (feedUnit_args _).2
+    case none => simp at h
+
+
+
+theorem hist_ext {chk : Nat → Nat → Bool} {s s' : State} {l : Label} (h : step chk s l = some s') :
+    ∃ y, s'.hist = s.hist ++ y := by
+  rcases hist_step chk s s' l h with h | ⟨_, _, _, _, h⟩
+  · exact ⟨[], by simp [h]⟩
+  · exact ⟨_, h⟩
+
+/-- At `aB` the lock holder reads the base time of the most recently published pair, which is
+the pair at index `view(sequence)`. -/
+theorem aB_reads_current {chk : Nat → Nat → Bool} {s : State} (hI : Inv chk s) (t ts : Nat) (m : Msg)
+    (hpc : (s.thr t).loc.pc = .aB) (hm : (s.mem (.b (odd (s.thr t).loc.sq)))[ts]? = some m)
+    (hv : (s.thr t).view (.b (odd (s.thr t).loc.sq)) ≤ ts) :
+    ∃ p, s.hist[(s.thr t).view .seq]? = some p ∧ p.1 = m.val ∧ s.hist.getLast? = some p := by
+  have hT := hI.t t
+  have hG := hI.g
+  have hh : s.held = some t := hT.lock.1 (by simp [hpc, Pc.inCS])
+  have hH := hI.h t hh
+  have hw := hH.wpc
+  simp only [WInv, hpc] at hw
+  have hnlen : (s.mem .seq).length = nOf s.mem + 1 := by have := hG.hpos; simp [nOf]; omega
+  have hcs := hH.cover .seq
+  have hvs : (s.thr t).view .seq = nOf s.mem := by omega
+  have htslt : ts < (s.mem (.b (odd (s.thr t).loc.sq))).length := (List.getElem?_eq_some_iff.mp hm).1
+  have hcov := hH.cover (.b (odd (s.thr t).loc.sq))
+  have hlen := hH.lenb (odd (s.thr t).loc.sq)
+  simp only [hpc, wb, Bool.false_eq_true, false_and, if_false, Nat.add_zero] at hlen
+  rw [bit_odd, hw] at hlen
+  have htseq : ts = tsOf (s.thr t).loc.sq := by
+    rw [hw] at htslt hcov hv ⊢; unfold tsOf; omega
+  obtain ⟨p, hp⟩ := hist_get_of_lt hG (k := nOf s.mem) (by omega)
+  have := (hG.pairs _ p hp).1
+  rw [← hw, ← htseq, valAt_of_get hm] at this
+  simp at this
+  refine ⟨p, by rw [hvs]; exact hp, this.symm, ?_⟩
+  rw [List.getLast?_eq_getElem?, hG.hlen, hnlen]; simpa using hp
+
+theorem uinv_step {chk : Nat → Nat → Bool} {s s' : State} (hI : Inv chk s) (l : Label)
+    (hU : ∀ t, UInv s.hist ((s.thr t).view .seq) (s.thr t).loc) (hs : step chk s l = some s') :
+    ∀ t, UInv s'.hist ((s'.thr t).view .seq) (s'.thr t).loc := by
+  have hF := step_frame hI l hs
+  obtain ⟨y, hy⟩ := hist_ext hs
+  have hold : ∀ t', (s'.thr t').loc = (s.thr t').loc → UInv s'.hist ((s'.thr t').view .seq) (s'.thr t').loc := by
+    intro t' h; rw [h, hy]; exact UInv_mono (hF.views t' .seq) (hU t')
+  intro t'
+  by_cases ht : t' ≠ actor l
+  · exact hold t' (by rw [(hF.others t' ht).1])
+  have ht : t' = actor l := Decidable.of_not_not ht
+  subst ht
+  cases l with
+  | sync t u => exact hold t (hF.sync t u rfl).1
+  | start t op =>
+    simp only [actor]
+    rw [(hF.start t op rfl).1]
+    cases op <;> simp [UInv, Local.start]
+  | run t ts =>
+    simp only [actor]
+    have hUt := hU t
+    have hT := hI.t t
+    simp only [step] at hs
+    cases hpc : (s.thr t).loc.pc <;> simp only [Local.next, hpc] at hs
+    case idle | retSnap | retBool | sPanic | aPanic => simp at hs
+    case sSeq | sSeq2 | aSeq =>
+      cases hm : (s.mem .seq)[ts]? <;> simp only [hm] at hs
+      · simp at hs
+      · split at hs <;> simp at hs
+        subst hs
+        simp only [upd_same, Local.feedLoad, hpc, UInv]
+        all_goals (repeat' split)
+        all_goals (try trivial)
+        all_goals simp_all
+    case sV | aV =>
+      cases hm : (s.mem (.v (odd (s.thr t).loc.sq)))[ts]? <;> simp only [hm] at hs
+      · simp at hs
+      · split at hs <;> simp at hs
+        subst hs
+        simp [upd_same, Local.feedLoad, hpc, UInv]
+    case sB =>
+      cases hm : (s.mem (.b (odd (s.thr t).loc.sq)))[ts]? <;> simp only [hm] at hs
+      · simp at hs
+      · split at hs <;> simp at hs
+        subst hs
+        simp [upd_same, Local.feedLoad, hpc, UInv]
+    case aB =>
+      cases hm : (s.mem (.b (odd (s.thr t).loc.sq)))[ts]? <;> simp only [hm] at hs
+      · simp at hs
+      · split at hs <;> simp at hs
+        rename_i m hv
+        subst hs
+        obtain ⟨p, hp1, hp2, _⟩ := aB_reads_current hI t ts m hpc hm hv
+        have hge := loadView_ge (o := .acq) (m := m) hv .seq
+        simp only [upd_same, Local.feedLoad, hpc]
+        by_cases h1 : (s.thr t).loc.ub < m.val
+        · simp only [h1, if_true, UInv]
+          exact ⟨_, p, hge, hp1, by rw [hp2]; exact h1⟩
+        · by_cases h2 : chk (s.thr t).loc.ub (s.thr t).loc.uv = true <;> simp [h1, h2, UInv]
+    case aStB | aStV =>
+      simp at hs; subst hs
+      simp [upd_same, Local.feedUnit, hpc, UInv]
+    case aStSeq =>
+      simp at hs; subst hs
+      simp only [upd_same, Local.feedUnit, hpc, UInv]
+      refine ⟨(s.mem .seq).length, Nat.le_refl _, ?_⟩
+      rw [← hI.g.hlen]; simp
+    case uLock =>
+      split at hs <;> simp at hs
+      subst hs
+      cases s.poisoned <;> simp [upd_same, Local.feedLock, hpc, UInv]
+    case tTry =>
+      split at hs <;> simp at hs <;> subst hs
+      · cases s.poisoned <;> simp [upd_same, Local.feedLock, hpc, UInv]
+      · simp [upd_same, Local.feedLock, hpc, UInv]
+    case uClear | tClear | uUnlock | tUnlock | aUnlockPanic =>
+      simp at hs; subst hs
+      simp [upd_same, Local.feedUnit, hpc, UInv]
+    case aUnlock r =>
+      simp at hs; subst hs
+      simp only [hpc, UInv] at hUt
+      cases r <;> simp only [upd_same, Local.feedUnit, hpc, UInv]
+      exact hUt
+
+
+/-- A `run` step advances the thread's program by one access. -/
+theorem step_succ {chk : Nat → Nat → Bool} {s s' : State} {t ts : Nat} (h : step chk s (.run t ts) = some s') :
+    Local.Succ chk (s.thr t).loc (s'.thr t).loc := by
+  simp only [step] at h
+  cases hnx : (s.thr t).loc.next <;> simp only [hnx] at h
+  case load l o =>
+    cases hm : (s.mem l)[ts]? <;> simp only [hm] at h
+    · simp at h
+    · split at h <;> simp at h
+      subst h
+      simp only [upd_same]
+      exact .load l o _ hnx
+  case store l o val =>
+    simp at h; subst h
+    simp only [upd_same]
+    exact .unit (by simp [hnx]) (by simp [hnx]) (by simp [hnx]) (by simp [hnx])
+  case lock =>
+    split at h <;> simp at h
+    subst h
+    simp only [upd_same]
+    exact .lock _ (Or.inl hnx)
+  case tryLock =>
+    split at h <;> simp at h <;> subst h <;> simp only [upd_same] <;> exact .lock _ (Or.inr hnx)
+  case unlock p =>
+    simp at h; subst h
+    simp only [upd_same]
+    exact .unit (by simp [hnx]) (by simp [hnx]) (by simp [hnx]) (by simp [hnx])
+  case clearPoison =>
+    simp at h; subst h
+    simp only [upd_same]
+    exact .unit (by simp [hnx]) (by simp [hnx]) (by simp [hnx]) (by simp [hnx])
+  case none => simp at h
+
+/-- The release/acquire invariant extended with the writers' knowledge. -/
+def Ok (chk : Nat → Nat → Bool) (s : State) : Prop :=
+  Inv chk s ∧ ∀ t, UInv s.hist ((s.thr t).view .seq) (s.thr t).loc
+
+theorem ok_init (chk : Nat → Nat → Bool) (v0 : Nat) (h0 : chk 0 v0 = true) : Ok chk (init v0) :=
+  ⟨inv_init chk v0 h0, fun t => by simp [UInv, init]⟩
+
+theorem ok_step {chk : Nat → Nat → Bool} {s s' : State} {l : Label} (h : Ok chk s) (hs : step chk s l = some s') :
+    Ok chk s' :=
+  ⟨inv_step chk s s' l h.1 hs, uinv_step h.1 l h.2 hs⟩
+
+theorem ok_run (chk : Nat → Nat → Bool) (ls : List Label) : ∀ (s s' : State), Ok chk s →
+    run chk s ls = some s' → Ok chk s' := by
+  induction ls with
+  | nil => intro s s' hI h; simp [run] at h; subst h; exact hI
+  | cons l ls ih =>
+    intro s s' hI h
+    simp only [run] at h
+    cases hst : step chk s l with
+    | none => simp [hst] at h
+    | some s1 => simp [hst] at h; exact ih s1 s' (ok_step hI hst) h
+
+theorem ok_reachable {chk : Nat → Nat → Bool} {v0 : Nat} (h0 : chk 0 v0 = true) {s : State}
+    (h : Reachable chk v0 s) : Ok chk s := by
+  obtain ⟨ls, hls⟩ := h
+  exact ok_run chk ls _ _ (ok_init chk v0 h0) hls
+
+theorem laws (chk : Nat → Nat → Bool) : (mach chk).Laws chk (Ok chk) False where
+  ok_step := by
+    intro s s' l h hs
+    exact ok_step (s := s) (s' := s') (l := l) h hs
+  others := by
+    intro s s' l h hs t' ht
+    have := (step_frame (s := s) (s' := s') h.1 l hs).others t' ht
+    exact ⟨by show (s'.thr t').loc = (s.thr t').loc; rw [this.1], this.2⟩
+  vmono := by
+    intro s s' l h hs t'
+    exact (step_frame (s := s) (s' := s') h.1 l hs).views t' .seq
+  hist_ext := by
+    intro s s' l _ hs
+    exact hist_ext (s := s) (s' := s') (l := l) hs
+  sync := by
+    intro s s' t u h hs
+    obtain ⟨a, b, c⟩ := (step_frame (s := s) (s' := s') h.1 (.sync t u) hs).sync t u rfl
+    exact ⟨a, b, c .seq⟩
+  start := by
+    intro s s' t op h hs
+    obtain ⟨a, b, c, d⟩ := (step_frame (s := s) (s' := s') h.1 (.start t op) hs).start t op rfl
+    exact ⟨a, c, by show (s'.thr t).view .seq = (s.thr t).view .seq; rw [b], d⟩
+  run := by
+    intro s s' t ts h hs
+    exact ⟨step_succ (s := s) (s' := s') hs, ((step_frame (s := s) (s' := s') h.1 (.run t ts) hs).run t ts rfl).2.2⟩
+  snapRet := by
+    intro s t h hpc
+    have hpc : (s.thr t).loc.pc = .retSnap := hpc
+    obtain ⟨_, k, k1, k2, k3⟩ := (h.1.t t).lg.2.2 hpc
+    exact ⟨k, k1, k2, k3⟩
+  noPanic := by
+    intro s t h hpc
+    have hpc : (s.thr t).loc.pc = .sPanic := hpc
+    have := (h.1.t t).rd
+    simp [RInv, hpc] at this
+  uinv := fun h => h.2 _
+  sorted := fun h => h.1.g.sorted
+  global := fun h => h.elim
+
+end Woodpile.Abt.RA
